@@ -1,6 +1,6 @@
 #!/bin/sh
 # try_seed.sh <seed dir> <prop> : apply patch to /repo, run the property's quick check, undo. prints result.
-D=$1; P=$2
+D=$(realpath $1); P=$2
 cd /repo || exit 9
 git apply --check "$D/patch.diff" || { echo "PATCH DOES NOT APPLY"; exit 9; }
 git apply "$D/patch.diff"
